@@ -14,12 +14,18 @@ def run(c: Check):
     out, _ = c.go_harness("internal/dnsserver", "^TestVerifC06Server$", files=["c06_test.go", "vlab_test.go"], env=env,
                           timeout=1800)
     ev = read_ndjson(out)
+    out3, _ = c.go_harness("internal/dnsserver", "^TestVerifC06Burst$", files=["c06_test.go", "vlab_test.go"],
+                           env={"VERIF_ROUNDS": 6 if th else 2, "VERIF_BURST": 48 if th else 24}, timeout=1800)
+    ev3 = read_ndjson(out3)
     out2, _ = c.go_harness("internal/dnsserver/forward", "^TestVerifC06Upstream$", files=["c06_test.go"], env=env,
                            timeout=1800)
     ev2 = read_ndjson(out2)
-    allev = [dict(e, warm=json.dumps(e["warm"]), fresh=json.dumps(e["fresh"])) for e in ev + ev2]
+    allev = [dict(e, warm=json.dumps(e["warm"]), fresh=json.dumps(e["fresh"])) for e in ev + ev2] + [
+        dict(e, warm="replies=%d foreign=%d" % (e["replies"], e["foreign"]), fresh="unsent=%d" % e["unsent"]) for e in ev3]
+    if sum(e["replies"] for e in ev3) < 200:
+        raise Undecided("burst scenario vacuous: %d replies" % sum(e["replies"] for e in ev3))
     path = os.path.join(c.scratch, "c06.ndjson")
-    write_ndjson(path, [{"same": e["same"], "leak": e["leak"]} for e in allev])
+    write_ndjson(path, [{"same": e["same"], "leak": e["leak"], "burst": e["ev"] == "Burst"} for e in allev])
     r = c.tlc_trace("TraceBufferReuse", "TraceBufferReuse.cfg", path)
     if r.tuples("STUCK"):
         raise Undecided("trace spec stuck")
